@@ -404,7 +404,8 @@ impl Prop for C04 {
                         x.violate("C04:instance:untouched-part-changed", format!("call {ci}: substitute changed the instance's {part_name}"));
                     }
                     // constraints keep their identity and metadata
-                    for (b, a) in before.constraints.iter().zip(&cur.constraints) {
+                    for b in before.constraints.iter() {
+                        let Some(a) = cur.constraints.iter().find(|a| a.id == b.id) else { continue };
                         let mut b2 = b.clone();
                         b2.function = a.function.clone();
                         if &b2 != a {
